@@ -63,7 +63,8 @@ JudgeFile(e) ==
     IF ~e.ok THEN Prop("C20_ImportAndRun")
     ELSE IF ~ObsClosed(e) THEN Drift("C20_Closed")
     ELSE IF ~(e.loopAfterPack \/ Range(NamesOf(e.pack)) \cap LoopNames = {}) THEN Drift("C20_LoopStateOwn")
-    ELSE IF Range(NamesOf(e.pack)) \cap ModuleOwnNames # {} THEN Drift("C20_NoNameCapture")
+    ELSE IF Range(NamesOf(e.pack)) \cap ModuleOwnNames # {} \/ NewCollision(Range(NamesOf(e.pack)))
+         THEN Drift("C20_NoNameCapture")
     ELSE IF \/ e.decl # NamesOf(file'.decl)
             \/ e.pack # file'.pack
             \/ e.orig # file'.orig
@@ -83,13 +84,16 @@ JudgeImport(e) ==
     ELSE IF ~e.k0_ok THEN Drift("initial_values")
     ELSE Ok
 
+(* the property clauses are judged on what the real step did, also when the spec predicts that the *)
+(* step cannot succeed (then the prediction itself is the drift)                                     *)
 JudgeStep(e) ==
     IF ~e.ok THEN Prop("C20_ImportAndRun")
-    ELSE IF mod'.status # "ok" THEN Drift("run_outcome")
-    ELSE IF \E i \in DOMAIN parser.endo : ObsLen(e.lens, parser.endo[i].name) # mod'.STEP + 1
-         THEN Prop("C20_StepAppendsAll")
-    ELSE IF ~SatisfiesOf(mod') THEN Prop("C20_StepSatisfiesEquations")
+    ELSE IF \E nm \in KeptSeries(parser, file) : ObsLen(e.lens, nm) # mod'.STEP + 1
+         THEN Prop("C20_StepAppendsAll")                    \* exactly one value per period in every kept series
+    ELSE IF ~SatisfiesOf([mod' EXCEPT !.status = "ok", !.resid = e.resid_ok])
+         THEN Prop("C20_StepSatisfiesEquations")
     ELSE IF e.inproc_ok /\ ~e.agree_ok THEN Prop("C20_AgreesWithInProcess")
+    ELSE IF mod'.status # "ok" THEN Drift("run_outcome")
     ELSE IF ~e.inproc_ok THEN Drift("inprocess_solver_failed")
     ELSE IF e.step # mod'.STEP THEN Drift("step_counter")
     ELSE IF e.lens # mod'.lens THEN Drift("series_lengths")
